@@ -13,7 +13,7 @@ for d in sorted(glob.glob("/tmp/wt*-C*/MUTANT_*")):
     e = json.load(open(ev))
     wt = os.path.basename(os.path.dirname(d))
     prop = wt.split("-")[1]
-    rnd = "2" if wt.startswith("wt2") else ""
+    rnd = "2" if wt.startswith("wt2") else ("3" if wt.startswith("wt3") else "")
     mid = f"{prop}-{rnd}{os.path.basename(d).replace('MUTANT_', '')}"
     ok_demo = e.get("demo_on_clean_tree") == "passes" and e.get("demo_with_change") == "fails"
     ok_suite = e.get("existing_suite_ok")
@@ -49,9 +49,18 @@ for d in sorted(glob.glob("/tmp/wt*-C*/MUTANT_*")):
     }
     json.dump(meta, open(os.path.join(out, "meta.json"), "w"), indent=1, ensure_ascii=False)
 
+# the index is built from what is in /verif/seeded (scratch worktrees are removed once their changes are collected)
+metas = []
+for mp in sorted(glob.glob("/verif/seeded/*/meta.json")):
+    metas.append(json.load(open(mp)))
 with open("/verif/seeded/INDEX.md", "w") as f:
-    f.write("# Seeded changes (from independent sub-agents)\n\n| id | property | status | caught by (quick checks, first evaluation) |\n|---|---|---|---|\n")
-    for mid, prop, status, e in rows:
-        f.write(f"| {mid} | {prop} | {status} | {' '.join(e.get('checks_reporting_violation', [])) or '—'} |\n")
+    f.write("# Seeded changes (from independent sub-agents), all confirmed in a scratch worktree\n\n")
+    f.write("`first` = quick checks that reported a violation when the change was first evaluated (with the checks as they were then); `final` = result of the final checks with the change applied to /repo (see meta.json).\n\n")
+    f.write("| id | property | first evaluation: caught by | final detection |\n|---|---|---|---|\n")
+    for m in metas:
+        first = " ".join(m["what_i_ran"].get("quick_checks_reporting_a_violation_when_first_evaluated") or []) or "—"
+        fin = " ".join((m.get("final_detection") or {}).get("results", [])) or "(pending)"
+        f.write(f"| {m['id']} | {m['breaks_property']} | {first} | {fin} |\n")
 for r in rows:
     print(r[0], r[2], r[3].get("checks_reporting_violation"))
+print(len(metas), "seeded changes in /verif/seeded")
